@@ -27,8 +27,8 @@
 (* for one reactor turn); the right pipe may run there, time may not.      *)
 (*                                                                         *)
 (*   left :  Lookup -> (hit) RegisterOutgoing -> SinkWrite(ok|err)         *)
-(*           Lookup -> (miss) InsertPipeEntry -> SockOpen(ok|err) ->       *)
-(*                     NewConn(ok|err) -> RegisterOutgoing -> SinkWrite    *)
+(*           Lookup -> (miss) SockOpen(ok|err) -> NewConn(ok|err) ->       *)
+(*                     InsertPipeEntry -> RegisterOutgoing -> SinkWrite    *)
 (*   right:  ReadReply (socket read + downstream write) ->                 *)
 (*                     RegisterIncoming -> [DnsDone -> ConnClosed]         *)
 (*           SockErrRead -> ReadClose                                      *)
@@ -169,7 +169,7 @@ ConnClosedEffect(arg) ==
 Lookup ==
     /\ LeftMay /\ lpc = "idle" /\ inq # << >>
     /\ lcur' = Head(inq) /\ inq' = Tail(inq)
-    /\ lpc' = IF K(Head(inq).f) \in DOMAIN pipeTab THEN "reg" ELSE "ins"
+    /\ lpc' = IF K(Head(inq).f) \in DOMAIN pipeTab THEN "reg" ELSE "open"
     /\ UNCHANGED << pipeTab, fwdTab, gauge, alive, began, closing, rxq, sockErr, icmpFly, rpc, rcur, tpc, texp, tcur,
                     now, tickAt, down, seen, toPeer, toClient, got, done, ops, nextId, nextGen, lastAct, everDown, expiredOnce, met, stalled >>
 
@@ -177,7 +177,7 @@ InsertPipeEntry ==
     /\ lpc = "ins"
     /\ pipeTab' = With(pipeTab, K(lcur.f), [la |-> now, pend |-> IF lcur.f \in Dns THEN 0 ELSE -1])
     /\ lastAct' = [lastAct EXCEPT ![K(lcur.f)] = now]
-    /\ lpc' = "open"
+    /\ lpc' = "reg"
     /\ UNCHANGED << fwdTab, gauge, alive, began, closing, inq, lcur, rxq, sockErr, icmpFly, rpc, rcur, tpc, texp, tcur,
                     now, tickAt, down, seen, toPeer, toClient, got, done, ops, nextId, nextGen, everDown, expiredOnce, met, stalled >>
 
@@ -188,9 +188,10 @@ SockOpenOk ==
     /\ fwdTab' = With(fwdTab, K(lcur.f), [owner |-> lcur.f, peer |-> Dst[lcur.f], gen |-> IF Hist THEN nextGen ELSE 0])
     /\ nextGen' = IF Hist THEN nextGen + 1 ELSE nextGen
     /\ gauge' = gauge + 1
+    /\ lastAct' = [lastAct EXCEPT ![K(lcur.f)] = now]
     /\ lpc' = "conn"
     /\ UNCHANGED << pipeTab, alive, began, closing, inq, lcur, rxq, sockErr, icmpFly, rpc, rcur, tpc, texp, tcur,
-                    now, tickAt, down, seen, toPeer, toClient, got, done, ops, nextId, lastAct, everDown, expiredOnce, met, stalled >>
+                    now, tickAt, down, seen, toPeer, toClient, got, done, ops, nextId, everDown, expiredOnce, met, stalled >>
 
 \* connect() failed locally: no socket, no gauge
 SockOpenErr ==
@@ -199,16 +200,17 @@ SockOpenErr ==
     /\ UNCHANGED << pipeTab, fwdTab, gauge, alive, began, closing, inq, lcur, rxq, sockErr, icmpFly, rpc, rcur, tpc, texp, tcur,
                     now, tickAt, down, seen, toPeer, toClient, got, done, ops, nextId, nextGen, lastAct, everDown, expiredOnce, met, stalled >>
 
+\* the flow is entered into the pipe's table only once the forwarder has created it
 NewConnOk ==
-    /\ lpc = "conn" /\ lpc' = "reg"
+    /\ lpc = "conn" /\ lpc' = "ins"
     /\ UNCHANGED << pipeTab, fwdTab, gauge, alive, began, closing, inq, lcur, rxq, sockErr, icmpFly, rpc, rcur, tpc, texp, tcur,
                     now, tickAt, down, seen, toPeer, toClient, got, done, ops, nextId, nextGen, lastAct, everDown, expiredOnce, met, stalled >>
 
 \* on_new_udp_connection failed: the datagram is dropped and the flow does not exist
-\* (the pipe-table entry made just before is withdrawn); the multiplexer goes on
+\* (no pipe-table entry was made for it); the multiplexer goes on
 NewConnErr ==
     /\ lpc = "connerr"
-    /\ pipeTab' = Without(pipeTab, K(lcur.f))
+    /\ UNCHANGED pipeTab
     /\ done' = Record(done, [f |-> lcur.f, id |-> lcur.id, out |-> "connerr"])
     /\ lpc' = "idle" /\ lcur' = Nil
     /\ UNCHANGED << fwdTab, gauge, alive, began, closing, inq, rxq, sockErr, icmpFly, rpc, rcur, tpc, texp, tcur,
@@ -516,8 +518,8 @@ TablesAgree == (Quiet /\ alive) => DOMAIN pipeTab = DOMAIN fwdTab
 TablesNearlyAgree ==
     /\ DOMAIN fwdTab \subseteq DOMAIN pipeTab \cup (IF tpc = "closed" THEN {tcur} ELSE {})
                                            \cup (IF rpc = "dns2" THEN {Rev(rcur.lab)} ELSE {})
-    /\ DOMAIN pipeTab \subseteq DOMAIN fwdTab \cup (IF lpc \in {"open", "connerr"} THEN {K(lcur.f)} ELSE {})
-                                           \cup (IF rpc = "close" THEN {rcur.k} ELSE {})
+                                           \cup (IF lpc \in {"conn", "ins"} THEN {K(lcur.f)} ELSE {})
+    /\ DOMAIN pipeTab \subseteq DOMAIN fwdTab \cup (IF rpc = "close" THEN {rcur.k} ELSE {})
 
 GaugeExact == gauge = Cardinality(DOMAIN fwdTab)
 
